@@ -63,7 +63,8 @@ func (b *Bind) GetCommand() sms.ICommander {
 
 func (b *Bind) GenEmptyResponse() sms.PDU {
 	return &BindResp{
-		Header: sgip.NewHeader(0, sgip.SGIP_BIND_REP, b.Sequence[0], b.GetSequenceID()),
+		// SGIP 1.2 §3.4: a response repeats the whole sequence number of its command
+		Header: sgip.Header{CommandID: sgip.SGIP_BIND_REP, Sequence: b.Header.Sequence},
 	}
 }
 
